@@ -68,7 +68,7 @@ static E1Config makeCfg(const std::string &prop, Family fam, bool directed, bool
             c.allPairs = true;
             c.editNeighbours = true;
         }
-    } else if (prop == "C16") {
+    } else if (prop == "C16" || prop == "C17F") {
         c.force = true;
         c.maxCopies = 3;
         if (fam == PLAIN) {
@@ -94,6 +94,12 @@ static E1Config makeCfg(const std::string &prop, Family fam, bool directed, bool
     c.observeEveryTransition = (c.maxDepth >= 0 || c.maxN <= 2) && !(prop == "C16" && tier != "thorough" && c.maxN <= 2 && labelled) && !(prop == "C06" && c.maxN > 2 && tier != "thorough");
     c.mergeDifferential = (small || variant == "n1" || variant == "n2tiny") && !(prop == "C16" && tier != "thorough");
     if (prop == "C16" && tier != "thorough") c.silentSuffixStates = 1500;
+    if (prop == "C17" || prop == "C17F") { // configuration-matrix runs (C17): the plain search only
+        c.silentSuffix = 0;
+        c.mergeDifferential = false;
+        c.statelessDepth = 2;
+        c.observeEveryTransition = false;
+    }
     return c;
 }
 
@@ -121,7 +127,7 @@ template <class G> int runOne(const std::string &prop, Family fam, bool directed
     rep.config = cfg.name;
     rep.tier = args.get("tier", "quick");
     Explorer<G> ex(cfg, rep, prop);
-    if (prop == "C16") installC16(ex);
+    if (prop == "C16" || prop == "C17F") installC16(ex);
     ex.run();
     std::string out = args.get("out", "");
     if (!out.empty() && !rep.write(out)) { fprintf(stderr, "cannot write %s\n", out.c_str()); return 2; }
